@@ -19,7 +19,8 @@ class Contract:
     def __init__(self, key, module=None, qualname=None, params=None, returns=None, requires=(), ensures=(),
                  raises=(), locals=None, loops=None, defn=None, modifies=(), kind="function",
                  status="verify", impl_of=None, self_guard=None, defaults=None, ensures_on_raise=(),
-                 attrs=None, is_lemma=False, note="", total=None, properties=(), inline=False, use_at_end=(), opaque=()):
+                 attrs=None, is_lemma=False, note="", total=None, properties=(), inline=False, use_at_end=(), opaque=(),
+                 aliases_ok=()):
         self.key = key
         self.module = module
         self.qualname = qualname or key
@@ -46,6 +47,7 @@ class Contract:
         self.inline = inline
         self.use_at_end = list(use_at_end)
         self.opaque = set(opaque)
+        self.aliases_ok = set(aliases_ok)
 
     def param_axioms(self, eng, st):
         return []
@@ -165,6 +167,8 @@ class Registry:
                 return vstr(c) if isinstance(c, str) else vbool(c) if isinstance(c, bool) else vint(c)
         if name in ("True", "False"):
             return vbool(name == "True")
+        if modctx is not None and (name in modctx.classes or (name in modctx.imports and name[:1].isupper())):
+            return V(("opaque", "Class"), z3.Const("class_" + name, sort_of(("opaque", "Class"))))
         return None
 
     # ------------------------------------------------------------------ totality (for short-circuit decisions)
@@ -211,6 +215,12 @@ class Registry:
                 return [(st, self.setof(eng, node, st))]
             if n in ("any", "all") and len(node.args) == 1 and isinstance(node.args[0], (ast.GeneratorExp, ast.ListComp)):
                 return [(st, self.any_all_gen(eng, n, node.args[0], st))]
+            if n == "isinstance" and len(node.args) == 2:
+                from .builtins_model import b_isinstance
+                out = []
+                for s_, v_ in eng.ev(node.args[0], st):
+                    out += b_isinstance(self, eng, s_, [v_], {}, node)
+                return out
             if n == "defaultdict":
                 return [(st, V(("dict", ("none",), ("none",)), None))]  # typed by the local's declaration (DDict)
             if n == "cast" and len(node.args) == 2:
@@ -592,6 +602,13 @@ class Registry:
     def call_method(self, eng, st, recv: V, attr, args, kwargs, node, is_property=False, recv_expr=None):
         from .builtins_model import METHODS
         k = recv.t[0]
+        if k == "obj" and attr in recv.x and not is_property:
+            fv = recv.x[attr]
+            if fv.t[0] == "closure":
+                return eng.apply_closure(fv, args, st)
+            if fv.t[0] == "opaque":
+                return self.call_method(eng, st, fv, "__call__", args, kwargs, node)
+            raise OutOfSubset(f"call of field {attr} of type {fv.t}")
         if k in METHODS and attr in METHODS[k]:
             return METHODS[k][attr](self, eng, st, recv, args, kwargs, node, recv_expr)
         if k == "opt":
@@ -618,6 +635,8 @@ class Registry:
             raise OutOfSubset(f"no contract for {fam}.{attr} (line {getattr(node, 'lineno', '?')})")
         if is_property and c.kind != "property":
             raise OutOfSubset(f"bound method {fam}.{attr} used as a value")
+        if c.kind in ("classmethod", "staticmethod"):
+            return self.apply_contract(eng, c, list(args), kwargs, st, node)
         return self.apply_contract(eng, c, [recv] + list(args), kwargs, st, node, self_expr=recv_expr)
 
     def family_of(self, v):
@@ -669,18 +688,27 @@ class Registry:
                     eng.spec = saved
             try:
                 a_ = bound[n]
-                if a_.t[0] == "opt" and c.params[n][0] not in ("opt", "closure"):
+                if a_.t[0] == "opt" and c.params[n][0] not in ("opt", "closure") and c.params[n] != ("opaque", "Any"):
                     if not eng.spec:
                         eng.oblige(st, znot(a_.x[0]), "pre@call", f"pre@call[{c.key}@{lineno}:{n} is not None]", lineno)
                     a_ = a_.x[1]
-                cs.vars[n] = coerce(a_, c.params[n]) if c.params[n][0] != "closure" else a_
+                cs.vars[n] = coerce(a_, c.params[n]) if c.params[n][0] != "closure" and c.params[n] != ("opaque", "Any") else a_
             except TypeError as e:
                 raise BindMismatch(f"{c.key}: argument {n}: {e} (line {lineno})")
         cs.old = {k: deep_copy(v) for k, v in cs.vars.items()}
         if c.inline and not eng.spec:
             if getattr(eng, "qdepth", 0) > 0:
                 raise OutOfSubset(f"inlined helper {c.key} under a binder")
-            return self.inline_call(eng, c, cs.vars, st, node)
+            arg_exprs = {}
+            is_method = self_expr is not None
+            for i_, pn_ in enumerate(pnames):
+                if is_method and i_ == 0:
+                    arg_exprs[pn_] = self_expr
+                else:
+                    ai_ = i_ - (1 if is_method else 0)
+                    if isinstance(node, ast.Call) and ai_ < len(node.args):
+                        arg_exprs[pn_] = node.args[ai_]
+            return self.inline_call(eng, c, cs.vars, st, node, arg_exprs)
         if getattr(eng, "qdepth", 0) > 0 and c.defn is None:
             raise OutOfSubset(f"call of {c.key} under a binder needs a 'defn' contract")
         saved_res = eng.result
@@ -762,7 +790,7 @@ class Registry:
             raise OutOfSubset("mutated argument is a temporary")
 
 
-def _inline_call(self, eng, c, cs_vars, st, node):
+def _inline_call(self, eng, c, cs_vars, st, node, arg_exprs=None):
     """Execute the callee's real body in a fresh frame (listed in the evidence as an inlined helper)."""
     from . import extract as _ex
     modctx = _ex.module(c.module)
@@ -784,7 +812,16 @@ def _inline_call(self, eng, c, cs_vars, st, node):
         eng._abn = saved_abn
     out = []
     for s in finals:
+        callee_vars = s.vars
         s.vars = s.stack.pop()
+        # records are passed by reference: propagate the callee's mutations of record parameters
+        for pn_, ex_ in (arg_exprs or {}).items():
+            pv = callee_vars.get(pn_)
+            if pv is not None and pv.t[0] == "obj":
+                if isinstance(ex_, ast.Name) and ex_.id in s.vars:
+                    s.vars[ex_.id] = pv
+                elif isinstance(ex_, ast.Attribute):
+                    eng.lvalue_obj(ex_.value, s).x[ex_.attr] = pv
         if s.flow in ("normal", "return"):
             v = s.ret if s.flow == "return" else VNONE
             s.flow, s.ret = "normal", None
